@@ -69,6 +69,10 @@ pub struct Query {
     pub win: Win,
     pub rest: Rest,
     pub proj: Proj,
+    /// Some(k): before this query is asked, the same statement is submitted once and its future
+    /// dropped after k scheduler turns (a client that disconnects / times out mid-request)
+    #[serde(default)]
+    pub abandoned_after: Option<u8>,
 }
 
 #[derive(Clone, Debug, Serialize, Deserialize)]
@@ -312,7 +316,8 @@ pub fn exec(case: &Case) -> Outcome {
         let allow_now_rel = (3..45).contains(&sec_in_min);
         let d = &case.data;
         let batches = d.batches(now);
-        let store: Arc<dyn object_store::ObjectStore> = Arc::new(object_store::memory::InMemory::new());
+        // every store request takes one scheduler turn, so that a request can be abandoned mid-way
+        let store: Arc<dyn object_store::ObjectStore> = Arc::new(crate::qenv::YieldStore(Arc::new(object_store::memory::InMemory::new())));
         let env = match ingest(store, d.backend, &batches, d.schema()).await {
             Ok(e) => e,
             Err(e) => {
@@ -362,6 +367,12 @@ pub fn exec(case: &Case) -> Outcome {
                 out.excluded_known = Some(k.to_string());
             }
             let want = reference(&sql, &env.all, env.schema.clone()).await;
+            if let Some(k) = q.abandoned_after {
+                // the node's state after an abandoned request is one more "temperature" the answer must not depend on
+                if PollBudget::new(node.query(&sql), 1 + k as u32).await.is_none() {
+                    out.class("prior-request-abandoned-mid-way");
+                }
+            }
             // cold, then warm (same node, same query)
             for pass in 0..2 {
                 use futures::FutureExt;
@@ -663,7 +674,7 @@ fn proj() -> impl Strategy<Value = Proj> {
 }
 
 fn strategy(t: Tier) -> BoxedStrategy<Case> {
-    (dataset(t.pick(40usize, 60usize)), prop::collection::vec((win(), rest(), proj()).prop_map(|(win, rest, proj)| Query { win, rest, proj }), 1..t.pick(6usize, 10usize)), any::<bool>(), prop::bool::weighted(0.3), prop::bool::weighted(0.3), prop::bool::weighted(0.4))
+    (dataset(t.pick(40usize, 60usize)), prop::collection::vec((win(), rest(), proj(), prop::option::weighted(0.15, 0u8..40)).prop_map(|(win, rest, proj, abandoned_after)| Query { win, rest, proj, abandoned_after }), 1..t.pick(6usize, 10usize)), any::<bool>(), prop::bool::weighted(0.3), prop::bool::weighted(0.3), prop::bool::weighted(0.4))
         .prop_map(|(data, queries, fresh_each, adaptive, compact, with_stats)| Case { data, queries, fresh_each, adaptive, compact, with_stats })
         .boxed()
 }
